@@ -17,7 +17,7 @@ variable {off : Nat} {w : List Char} {Pv : Array (Ev α) → Prop} {ts : List To
     the quantity present -/
 def BodyFrag (cs : CharSpec) (ts : List Tok) (c c' : Nat) (b : Body) : Prop :=
   ∃ c1, c ≤ c1 ∧ c1 ≤ c' ∧ b.name = slice ts c c1 ∧
-    ∀ i t, c1 ≤ i → i < c' → ts[i]? = some t → Core cs t → ∃ q, b.quantity = some q ∧ t ∈ q
+    ∀ i t, c1 ≤ i → i < c' → ts[i]? = some t → CoreTok cs t → ∃ q, b.quantity = some q ∧ t ∈ q
 
 theorem compBodyLong_fc (h : G ts e s) :
     Sat (compBodyLong (α := α)) s (fun r s' => ∀ b, r = some b → BodyFrag cs ts s.cur s'.cur b) := by
@@ -101,7 +101,7 @@ theorem compBody_fc (hw : WFI off w ts) (h : G ts e s) :
     rw [← h1]; exact hq b hb'
 
 theorem noteP_fc (hw : WFI off w ts) (h : G ts e s) :
-    Sat (noteP (α := α)) s (fun r s' => ∀ i t, s.cur ≤ i → i < s'.cur → ts[i]? = some t → Core cs t →
+    Sat (noteP (α := α)) s (fun r s' => ∀ i t, s.cur ≤ i → i < s'.cur → ts[i]? = some t → CoreTok cs t →
       OptHolds r (tokBodyStart t) t.stop) := by
   unfold noteP
   apply withRecover_sat
@@ -139,7 +139,7 @@ theorem noteP_fc (hw : WFI off w ts) (h : G ts e s) :
 theorem parseAlias_fc (hup : UpP Pv) (container : String) {toks : List Tok} {o : Nat}
     (hr : RunAt o toks) (h : GE Pv ts e s) :
     Sat (parseAlias (α := α) container toks o) s (fun r s' => GE Pv ts e s' ∧ s'.cur = s.cur ∧
-      ∀ t ∈ toks, Core cs t → HasErr s'.evs ∨ r.1.holds (tokBodyStart t) t.stop ∨
+      ∀ t ∈ toks, CoreTok cs t → HasErrEv s'.evs ∨ r.1.holds (tokBodyStart t) t.stop ∨
         OptHolds r.2 (tokBodyStart t) t.stop) := by
   unfold parseAlias
   refine Sat.bind (hasExt_sat h.g ?_)
@@ -171,13 +171,13 @@ theorem parseAlias_fc (hup : UpP Pv) (container : String) {toks : List Tok} {o :
     refine Sat.bind (Sat.get ?_)
     apply Sat.bind
     apply Sat.mono (Q := fun r s' => GE Pv ts e s' ∧ s'.cur = s.cur ∧
-      ∀ t ∈ toks.drop (i + 1), Core cs t → HasErr s'.evs ∨ OptHolds r (tokBodyStart t) t.stop)
+      ∀ t ∈ toks.drop (i + 1), CoreTok cs t → HasErrEv s'.evs ∨ OptHolds r (tokBodyStart t) t.stop)
     · split
       · refine Sat.bind (Sat.perrE ?_)
-        exact Sat.pure ⟨h.pushUp hup _, rfl, fun t _ _ => Or.inl (HasErr.pushed _ _)⟩
+        exact Sat.pure ⟨h.pushUp hup _, rfl, fun t _ _ => Or.inl (HasErrEv.pushed _ _)⟩
       · split
         · refine Sat.bind (Sat.perrE ?_)
-          exact Sat.pure ⟨h.pushUp hup _, rfl, fun t _ _ => Or.inl (HasErr.pushed _ _)⟩
+          exact Sat.pure ⟨h.pushUp hup _, rfl, fun t _ _ => Or.inl (HasErrEv.pushed _ _)⟩
         · exact Sat.pure ⟨h, rfl, fun t ht hc => Or.inr ⟨_, rfl, frag_run hr2 ht (hc.hasBody hr2.2 ht)⟩⟩
     rintro alias s1 ⟨g1, c1, ha⟩
     refine Sat.bind (bpText_sat hr1 ?_)
@@ -227,8 +227,8 @@ theorem frag_mods_hold {mtoks : List Tok} {o : Nat} (hr : RunAt o mtoks) {sp : S
 
 theorem ingredientP_fc (hup : UpP Pv) (hw : WFI off w ts) (h : GE Pv ts e s) (hcs : s.cs = cs) :
     Sat (ingredientP (α := α)) s (fun r s' => GE Pv ts e s' ∧ ∀ ev, r = some ev →
-      ∀ i t, s.cur ≤ i → i < s'.cur → ts[i]? = some t → Core cs t →
-        HasErr s'.evs ∨ ev.carries cs (tokBodyStart t) t.stop) := by
+      ∀ i t, s.cur ≤ i → i < s'.cur → ts[i]? = some t → CoreTok cs t →
+        HasErrEv s'.evs ∨ ev.carries cs (tokBodyStart t) t.stop) := by
   have hc : Ctx off w Pv ts := upCtx hw hup
   unfold ingredientP
   refine Sat.bind (currentOffset_sat h.g ?_)
@@ -270,7 +270,7 @@ theorem ingredientP_fc (hup : UpP Pv) (hw : WFI off w ts) (h : GE Pv ts e s) (hc
       have hcs7 : s7.cs = cs := by rw [cs7, cs6, cs5, cs4, cs3, cs2, cs1, hcs]
       apply Sat.bind
       apply Sat.mono (Q := fun (r : Option (Loc (PQuantity α))) s' => GE (ErrKept s5.evs Pv) ts e s' ∧
-        s'.cur = s7.cur ∧ ∀ qt, body.quantity = some qt → ∀ t ∈ qt, Core cs t →
+        s'.cur = s7.cur ∧ ∀ qt, body.quantity = some qt → ∀ t ∈ qt, CoreTok cs t →
           ∃ lq, r = some lq ∧ QtyHolds cs lq.val (tokBodyStart t) t.stop)
       · split
         · rename_i qt hqt
@@ -288,7 +288,7 @@ theorem ingredientP_fc (hup : UpP Pv) (hw : WFI off w ts) (h : GE Pv ts e s) (hc
       refine Sat.pure ⟨g8.unkeep, ?_⟩
       intro ev hev i t a b ht hc
       simp only [Option.some.injEq] at hev; subst hev
-      have herr : HasErr s5.evs → HasErr s8.evs := g8.evs.2
+      have herr : HasErrEv s5.evs → HasErrEv s8.evs := g8.evs.2
       have hb : i < s8.cur := b
       by_cases a1 : i < s1.cur
       · have : i = s.cur := by omega
@@ -312,8 +312,8 @@ theorem ingredientP_fc (hup : UpP Pv) (hw : WFI off w ts) (h : GE Pv ts e s) (hc
 
 theorem cookwareP_fc (hup : UpP Pv) (hw : WFI off w ts) (h : GE Pv ts e s) (hcs : s.cs = cs) :
     Sat (cookwareP (α := α)) s (fun r s' => GE Pv ts e s' ∧ ∀ ev, r = some ev →
-      ∀ i t, s.cur ≤ i → i < s'.cur → ts[i]? = some t → Core cs t →
-        HasErr s'.evs ∨ ev.carries cs (tokBodyStart t) t.stop) := by
+      ∀ i t, s.cur ≤ i → i < s'.cur → ts[i]? = some t → CoreTok cs t →
+        HasErrEv s'.evs ∨ ev.carries cs (tokBodyStart t) t.stop) := by
   have hc : Ctx off w Pv ts := upCtx hw hup
   unfold cookwareP
   refine Sat.bind (currentOffset_sat h.g ?_)
@@ -351,15 +351,15 @@ theorem cookwareP_fc (hup : UpP Pv) (hw : WFI off w ts) (h : GE Pv ts e s) (hcs 
       have hcs6 : s6.cs = cs := by rw [cs6, cs5, cs4, cs3, cs2, cs1, hcs]
       apply Sat.bind
       apply Sat.mono (Q := fun (r : Option (Loc (PQValue α))) s' => GE (ErrKept s5.evs Pv) ts e s' ∧
-        s'.cur = s6.cur ∧ ∀ qt, body.quantity = some qt → ∀ t ∈ qt, Core cs t →
-          HasErr s'.evs ∨ ∃ lq, r = some lq ∧ ValHolds cs lq.val.value (tokBodyStart t) t.stop)
+        s'.cur = s6.cur ∧ ∀ qt, body.quantity = some qt → ∀ t ∈ qt, CoreTok cs t →
+          HasErrEv s'.evs ∨ ∃ lq, r = some lq ∧ ValHolds cs lq.val.value (tokBodyStart t) t.stop)
       · split
         · rename_i qt hqt
           refine Sat.bind (Sat.mono (parseQuantity_fc hup' hw (hq qt hqt) g6 hcs6) ?_)
           rintro q s7 ⟨g7, c7, hqr⟩
           split
           · refine Sat.bind (Sat.perrE ?_)
-            exact Sat.pure ⟨g7.pushUp hup' _, c7, fun _ _ _ _ _ => Or.inl (HasErr.pushed _ _)⟩
+            exact Sat.pure ⟨g7.pushUp hup' _, c7, fun _ _ _ _ _ => Or.inl (HasErrEv.pushed _ _)⟩
           · rename_i hun
             refine Sat.pure ⟨g7, c7, ?_⟩
             intro qt' hqt' t ht hc
@@ -381,14 +381,14 @@ theorem cookwareP_fc (hup : UpP Pv) (hw : WFI off w ts) (h : GE Pv ts e s) (hcs 
           Sat (pure (some (Ev.cookware ⟨⟨pm.flags, name, alias, quantity, note⟩,
               ⟨offAt ts s.cur, offAt ts s4.cur⟩⟩)) : P α (Option (Ev α))) s9
             (fun r s' => GE Pv ts e s' ∧ ∀ ev, r = some ev →
-              ∀ i t, s.cur ≤ i → i < s'.cur → ts[i]? = some t → Core cs t →
-                HasErr s'.evs ∨ ev.carries cs (tokBodyStart t) t.stop) := by
+              ∀ i t, s.cur ≤ i → i < s'.cur → ts[i]? = some t → CoreTok cs t →
+                HasErrEv s'.evs ∨ ev.carries cs (tokBodyStart t) t.stop) := by
         intro s9 g9 c9
         refine Sat.pure ⟨g9.unkeep.unkeep, ?_⟩
         intro ev hev i t a b ht hc
         simp only [Option.some.injEq] at hev; subst hev
-        have herr7 : HasErr s7.evs → HasErr s9.evs := g9.evs.2
-        have herr5 : HasErr s5.evs → HasErr s9.evs := g9.evs.1.2
+        have herr7 : HasErrEv s7.evs → HasErrEv s9.evs := g9.evs.2
+        have herr5 : HasErrEv s5.evs → HasErrEv s9.evs := g9.evs.1.2
         have hb : i < s9.cur := b
         by_cases a1 : i < s1.cur
         · have : i = s.cur := by omega
@@ -417,8 +417,8 @@ theorem cookwareP_fc (hup : UpP Pv) (hw : WFI off w ts) (h : GE Pv ts e s) (hcs 
             return some (Ev.cookware ⟨⟨pm.flags, name, alias, quantity, note⟩,
               ⟨offAt ts s.cur, offAt ts s4.cur⟩⟩) : P α (Option (Ev α))) s9
             (fun r s' => GE Pv ts e s' ∧ ∀ ev, r = some ev →
-              ∀ i t, s.cur ≤ i → i < s'.cur → ts[i]? = some t → Core cs t →
-                HasErr s'.evs ∨ ev.carries cs (tokBodyStart t) t.stop) := by
+              ∀ i t, s.cur ≤ i → i < s'.cur → ts[i]? = some t → CoreTok cs t →
+                HasErrEv s'.evs ∨ ev.carries cs (tokBodyStart t) t.stop) := by
         intro s9 g9 c9
         split
         · rename_i hcc
